@@ -17,6 +17,7 @@ import Mahotas.Proofs.C15Graham
 import Mahotas.Proofs.C15Euler
 import Mahotas.Proofs.C15Cell
 import Mahotas.Proofs.C15Flood
+import Mahotas.Proofs.C15FloodPx
 open Mahotas Mahotas.C15
 
 /-- **thin ⊆ input.** Every pixel set in the model of `mahotas.thin` (crop to the bounding box, zero
@@ -451,4 +452,48 @@ example : IConn 2 2 #[true, false, false, true] true 0 3 ∧ ¬ adjIdx 2 2 false
   rintro ⟨d, hd, ht⟩
   revert ht
   revert d
+  decide
+
+/-- **The edges of the counted graph in pixel coordinates** (both connectivities): for a flat index `j` inside the box,
+`adjIdx rows cols conn8 i j` holds iff (row of `j` − row of `i`, column of `j` − column of `i`) is one of the offsets
+of `neigh conn8`, with row `= index / cols` and column `= index % cols`. So the graph of `C15_components_count` is the
+usual 8- (4-) neighbourhood graph on the set pixels of the `rows × cols` box. -/
+theorem C15_flood_graph_coordinates (rows cols : Nat) (conn8 : Bool) (i j : Nat) (hj : j < rows * cols) :
+    adjIdx rows cols conn8 i j ↔
+      (((j / cols : Nat) : Int) - ((i / cols : Nat) : Int), ((j % cols : Nat) : Int) - ((i % cols : Nat) : Int))
+        ∈ neigh conn8 :=
+  adjIdx_iff hj
+
+/-- **For 8-connectivity the oracle counts the classes of `Conn (bset b)`** — the very connectivity relation
+(`adj8` on pixels `(row, column) : ℤ × ℤ`, chains inside the pixel set `bset b` of the image) that the thinning theorems
+`C15_pass_preserves_components` … speak about: there is a duplicate-free list of `components b true` flat indices of
+set pixels such that every pixel of `bset b` is `Conn (bset b)`-connected to the pixel (`pxOf`: row `s / cols`, column
+`s % cols`) of exactly one member. Hence `components b true` is the number of 8-connected components of `bset b`, and
+the `nin = nout` comparison of the check compares exactly the quantity that `SameComps` preserves. -/
+theorem C15_components_count_pixels (b : Bin) :
+    ∃ seeds : List Nat, seeds.Nodup ∧ seeds.length = components b true ∧
+      (∀ s ∈ seeds, s < b.rows * b.cols ∧ pxOf b.cols s ∈ bset b) ∧
+      (∀ p ∈ bset b, ∃! s, s ∈ seeds ∧ Conn (bset b) (pxOf b.cols s) p) := by
+  obtain ⟨seeds, h1, h2, h3, h4⟩ := C15_components_count_bin b true
+  refine ⟨seeds, h1, h2, fun s hs => (isV_iff b s).mp ((h3 s).mp hs).1, ?_⟩
+  intro p hp
+  obtain ⟨l, e⟩ := box_idx (bset_box b hp)
+  have hV : IsV b.rows b.cols b.data (idxOf b.cols p) := (isV_iff b _).mpr ⟨l, by rw [e]; exact hp⟩
+  obtain ⟨s, ⟨hs1, hs2⟩, huniq⟩ := h4 _ hV
+  refine ⟨s, ⟨hs1, ?_⟩, ?_⟩
+  · have := ((IConn_iff_Conn b ((h3 s).mp hs1).1).mp hs2).2
+    rwa [e] at this
+  · rintro s' ⟨hs1', hs2'⟩
+    apply huniq
+    refine ⟨hs1', (IConn_iff_Conn b ((h3 s').mp hs1').1).mpr ⟨l, ?_⟩⟩
+    rw [e]; exact hs2'
+
+/-- non-vacuity: in the 2×2 diagonal pair the pixels `(0,0)` and `(1,1)` form one class of `Conn (bset b)`, and the
+    oracle says 1 -/
+example : components (Bin.ofInts 2 2 [1, 0, 0, 1]) true = 1 ∧
+    Conn (bset (Bin.ofInts 2 2 [1, 0, 0, 1])) (0, 0) (1, 1) := by
+  refine ⟨by decide +kernel, Relation.ReflTransGen.single
+    ⟨show (Bin.ofInts 2 2 [1, 0, 0, 1]).get 0 0 = true by decide,
+     show (Bin.ofInts 2 2 [1, 0, 0, 1]).get 1 1 = true by decide, ?_⟩⟩
+  rw [adj8_iff]
   decide
